@@ -129,6 +129,28 @@ Example C10_ex_track :
   t_unpack T2 p used [x30; x30] = (t_empty, Ok 2).
 Proof. vm_compute. reflexivity. Qed.
 
+(* composite objects used on their own: after ANY history of the composite API - Unpack and SetBytes whatever their outcome,
+   Marshal of a struct (a failing one stores nothing in what is not set: the repair of F32; in what IS set the library keeps
+   the subfields written before the failure where the model keeps the previous content - both objects are clean, which is
+   all the argument uses, and no generated history observes the difference), accepted UnmarshalJSON
+   documents, UnsetSubfields by path - Unpack of any bytes has the outcome, and on success leaves the complete state, of
+   Unpack into a new composite *)
+From Iso Require Import Proofs.CompositeHistory.
+Theorem C10_composite_history : forall pref len mode subs ops d, NoDup (map fst subs) ->
+  let s := FComp pref len mode subs in
+  chist_ok s (fresh s) ops ->
+  let used := crun s (fresh s) ops in
+  snd (unpack_f s used d) = snd (unpack_f s (fresh s) d) /\
+  (u_is_ok (snd (unpack_f s used d)) = true -> fst (unpack_f s used d) = fst (unpack_f s (fresh s) d)).
+Proof. exact comp_history_unpack_as_new. Qed.
+Print Assumptions C10_composite_history.
+(* a history on the nested example composite: an accepted JSON document, SetBytes, an unset by path; the object differs
+   from a new one, and Unpack behaves as on a new one *)
+Example C10_ex_composite_history :
+  let ops := [CFromJson (JO [([x31], JN 5); ([x32], JS [x41; x42])]); CSetBytes [x30; x31; x30; x31; x37]; CUnsetPath [[x31]]; CFromJson (JO [([x32], JS [x43; x44])])] in
+  chist_ok c_ex (fresh c_ex) ops /\ crun c_ex (fresh c_ex) ops <> fresh c_ex.
+Proof. split; [vm_compute; repeat split; reflexivity|vm_compute; discriminate]. Qed.
+
 (* a tagged composite that was populated with both subfields and is then used to unpack only one of them shows
    exactly that one (the F12 scenario), and holds nothing of what it held before (F28: Unpack discards the
    values of the subfields that were set) *)
